@@ -164,7 +164,8 @@ func (p *Pass) getRelativePath(filePath string) string {
 }
 
 func (p *Pass) function(to *compile.FunctionSpec, fn string, path string, service string) {
-	file := p.getRelativePath(path)
+	// path has already been made relative to the repository by the caller.
+	file := path
 	if to == nil {
 		p.Report(Diagnostic{
 			FilePath: file,
